@@ -3,6 +3,7 @@
    section variable (assumption: component construction is a deterministic function of the declaration and
    of the components it references; recorded in the trusted base and probed by the metamorphic harness). *)
 From XV Require Import Base Staged StagedProofs Access AccessProofs.
+From XV Require Import Redefine RedefineProofs.
 From Coq Require Import Permutation.
 
 Theorem C09_build_is_eval : forall (payload : Type) (mk : N -> list payload -> payload) ds fuel s n p s',
@@ -46,3 +47,42 @@ Example C09_example :
   build_all N mkN 10 ex_ds [3; 1; 2]%N [] = Some [(3, 1057); (2, 33); (1, 1)]%N /\
   eval N mkN 10 ex_ds 3%N = Some 1057%N /\ eval N mkN 10 (rev ex_ds) 3%N = Some 1057%N.
 Proof. vm_compute. repeat split. Qed.
+
+(* xs:redefine: the redefined schema is the closure of the redefined document (its own declarations and those of the
+   documents it includes); however the declarations are ordered or split among those documents, the same redefinitions
+   are accepted and every component is built the same *)
+Theorem C09_redefine_arrangement : forall (payload : Type) (mk : N -> list payload -> payload)
+    (mkr : N -> payload -> list payload -> payload) d d' rs,
+  NoDup (map d_name (closure d)) -> Permutation (closure d) (closure d') ->
+  match assemble d rs, assemble d' rs with
+  | Some (b, l), Some (b', l') => l = l' /\ forall f n, evalr payload mk mkr f b l n = evalr payload mk mkr f b' l' n
+  | None, None => True
+  | _, _ => False
+  end.
+Proof. exact assemble_arrangement. Qed.
+Print Assumptions C09_redefine_arrangement.
+
+Theorem C09_redefine_split : forall (payload : Type) (mk : N -> list payload -> payload)
+    (mkr : N -> payload -> list payload -> payload) a b incs rs,
+  NoDup (map d_name (closure (Doc (a ++ b) incs))) ->
+  match assemble (Doc (a ++ b) incs) rs, assemble (Doc a (Doc b [] :: incs)) rs with
+  | Some (bs, l), Some (bs', l') => l = l' /\ forall f n, evalr payload mk mkr f bs l n = evalr payload mk mkr f bs' l' n
+  | None, None => True
+  | _, _ => False
+  end.
+Proof. exact split_invariance. Qed.
+Print Assumptions C09_redefine_split.
+
+Theorem C09_redefine_conservative : forall (payload : Type) (mk : N -> list payload -> payload)
+    (mkr : N -> payload -> list payload -> payload) base f n,
+  evalr payload mk mkr f base [] n = eval payload mk f base n.
+Proof. exact evalr_no_redefs. Qed.
+Print Assumptions C09_redefine_conservative.
+
+(* requiring the redefined component in the redefined document itself makes the result depend on the split *)
+Theorem C09_redefine_own_refuted :
+  exists a b rs,
+    assemble (Doc (a ++ b) []) rs <> None /\ assemble_own (Doc (a ++ b) []) rs <> None /\
+    assemble (Doc a [Doc b []]) rs <> None /\ assemble_own (Doc a [Doc b []]) rs = None.
+Proof. exact assemble_own_refuted. Qed.
+Print Assumptions C09_redefine_own_refuted.
